@@ -1,15 +1,29 @@
 #!/bin/bash
-# usage: tools/matrix.sh [id...]   -- every seeded change against every quick check; results in /verif/seeded/MATRIX.txt
+# usage: tools/matrix.sh   -- every seeded change against its own check and the checks related to the
+# code it touches; results appended to /verif/seeded/MATRIX.txt ("." = not run)
 cd /verif
-ids="$@"; [ -z "$ids" ] && ids=$(ls seeded | grep -E '^C[0-9]+-')
 out=seeded/MATRIX.txt
-for id in $ids; do
+checks_for() {
+  case "$1" in
+    C02-m2|C03-m3|C17-m3|C19-*|C02-r2-*|C17-r2-m3|C01-r2-m1|C01-r2-m3) echo "C01,C02,C03,C17,C19";;
+    C02-m1|C03-m1|C03-r2-m2) echo "C02,C03,C17";;
+    C02-m3|C03-m2|C03-r2-m1|C03-r2-m3|C17-r2-m1|C01-r2-m2) echo "C01,C02,C03,C17";;
+    C14-*) echo "C01,C14,C17,C20";;
+    C01-m1|C20-*|C17-r2-m2) echo "C01,C14,C17,C20";;
+    C17-m1) echo "C03,C17,C20";;
+    C01-m2) echo "C01,C02,C03";;
+    *) echo "C01,C02,C03,C14,C17,C19,C20";;
+  esac
+}
+for id in $(ls seeded | grep -E '^C[0-9]+-'); do
   [ -f seeded/$id/patch.diff ] || continue
-  res=$(NO_REBUILD=1 VERIF_NOMIN=1 tools/try_mutant.sh /verif/seeded/$id/patch.diff C01,C02,C03,C14,C17,C19,C20 2>&1)
+  grep -q "^$id " $out 2>/dev/null && continue
+  list=$(checks_for $id)
+  res=$(NO_REBUILD=1 VERIF_NOMIN=1 tools/try_mutant.sh /verif/seeded/$id/patch.diff $list 2>&1)
   line="$id"
   for p in C01 C02 C03 C14 C17 C19 C20; do
     rc=$(echo "$res" | grep -E "^--- $p exit=" | sed 's/.*exit=//')
-    case "$rc" in 0) v="-";; 1) v="CAUGHT";; *) v="err$rc";; esac
+    case "$rc" in 0) v="-";; 1) v="CAUGHT";; "") v=".";; *) v="err$rc";; esac
     line="$line $p=$v"
   done
   echo "$line" | tee -a $out
